@@ -40,7 +40,7 @@ ASSUMPTIONS = [
 ]
 BUDGET = {"quick": 50, "thorough": 450}
 NCASES = {"quick": 3000, "thorough": 60000}
-FLOORS = {'quick': {'case_held': 400, 'nontrivial': 300}, 'thorough': {'case_held': 12000, 'nontrivial': 8000, 'suite:apply_derivatives:held': 3000, 'suite:apply_derivatives:held_and_changed': 2000}}
+FLOORS = {'quick': {'case_held': 400, 'nontrivial': 300, 'two_mesh_held': 25}, 'thorough': {'case_held': 12000, 'nontrivial': 8000, 'two_mesh_held': 700, 'suite:apply_derivatives:held': 3000, 'suite:apply_derivatives:held_and_changed': 2000}}
 COVER_FLOORS = {"quick": {"outer": ["grad", "div", "curl", "nabla_grad", "nabla_div", "dx"]}, "thorough": {"outer": ["grad", "div", "curl", "nabla_grad", "nabla_div", "dx"]}}
 CELLS = [("interval", 1), ("interval", 2), ("triangle", 2), ("triangle", 2), ("triangle", 3), ("tetrahedron", 3), ("tetrahedron", 3)]
 DERIV = {"Grad", "Div", "Curl", "NablaGrad", "NablaDiv", "ReferenceGrad", "ReferenceDiv", "ReferenceCurl"}
@@ -110,7 +110,84 @@ def derivative_targets_ok(out):
     return bad
 
 
+def scalar_of(rng, e):
+    return e[tuple(rng.randrange(d) for d in e.ufl_shape)] if e.ufl_shape else e
+
+
+def two_meshes(ctx, rng):
+    """One expansion call on an expression / form that lives on two meshes of different geometric dimension:
+    each part must be differentiated with respect to its own mesh's coordinates."""
+    (c1, g1), (c2, g2) = rng.sample([("interval", 1), ("interval", 2), ("triangle", 2), ("triangle", 3), ("tetrahedron", 3)], 2)
+    cplx = False
+    parts = []
+    try:
+        for cell, gdim in ((c1, g1), (c2, g2)):
+            U = Universe(rng, cell, gdim, "cell", cplx)
+            G = Gen(U, rng, cplx=cplx, deriv=rng.choice([0, 1]), cond=False, math=rng.random() < 0.5, geom=rng.random() < 0.5)
+            G.extra = [U.x]
+            G.extra_prob = 0.5
+            e, ops = wrap(rng, U, G, rng.choice([1, 2]), rng.choice([1, 1, 2]))
+            parts.append((scalar_of(rng, e), U, cell, gdim))
+        if rng.random() < 0.5:
+            kind = "list"
+            obj = ufl.as_vector([p[0] for p in parts])
+        else:
+            kind = "form"
+            obj = parts[0][0] * ufl.dx(domain=parts[0][1].mesh) + parts[1][0] * ufl.dx(domain=parts[1][1].mesh)
+    except Exception as ex:
+        ctx.count("build_rejected")
+        ctx.covered("build_rejected_with", type(ex).__name__)
+        return
+    fn = expand_derivatives if rng.random() < 0.5 else (lambda x: apply_derivatives(apply_algebra_lowering(x)))
+    try:
+        out = fn(obj)
+    except Exception as ex:
+        # the property has no "or raises" clause; what raises for a part alone is not judged, but an expansion
+        # that fails only because the two parts are expanded in ONE call is a defect of the expansion
+        alone = []
+        for p in parts:
+            try:
+                fn(p[0])
+                alone.append(True)
+            except Exception:
+                alone.append(False)
+        if all(alone):
+            ctx.violation(f"C03/expand_derivatives/two-meshes/{kind}/raises-only-when-expanded-together/{type(ex).__name__}",
+                          f"each part expands alone, the joint expansion raises {type(ex).__name__}: {str(ex)[:200]}",
+                          {"parts": [str(p[0])[:500] for p in parts], "cells": [(p[2], p[3]) for p in parts]})
+            return
+        ctx.count("rejected")
+        ctx.covered("rejected_with", type(ex).__name__ + ":two-meshes")
+        return
+    outs = []
+    if kind == "list":
+        if type(out).__name__ != "ListTensor" or len(out.ufl_operands) != 2:
+            ctx.count("two_mesh_output_shape_unexpected")
+            return
+        outs = list(out.ufl_operands)
+    else:
+        for p in parts:
+            its = [itg.integrand() for itg in out.integrals() if itg.ufl_domain() == p[1].mesh]
+            if len(its) != 1:
+                ctx.count("two_mesh_output_shape_unexpected")
+                return
+            outs.append(its[0])
+    ok = True
+    for (e, U, cell, gdim), o in zip(parts, outs):
+        worlds = oracle.worlds_for(rng, cell, gdim, "cell", cplx, n=3)
+        for w in worlds:
+            w.mesh = U.mesh
+        verdict, _ = check_pass(ctx, "C03", "expand_derivatives", e, lambda x, o=o: o, worlds, localise=False,
+                                key_override="two-meshes/" + kind + ("/manifold" if gdim > E.TD[cell] else ""))
+        ok = ok and verdict == "held"
+    if ok:
+        ctx.count("two_mesh_held")
+        ctx.add_distinct(("two-meshes", kind, c1, g1, c2, g2, skeleton(parts[0][0], 2)))
+
+
 def case(ctx, i, rng):
+    if rng.random() < 0.12:
+        return two_meshes(ctx, rng)
     cell, gdim = rng.choice(CELLS)
     cplx = rng.random() < 0.25
     U = Universe(rng, cell, gdim, "cell", cplx)
